@@ -403,3 +403,12 @@ def q10_matcher(ctx):
 
 
 RULES.append(('Q10', q10_matcher))
+
+
+def q11_stateless(ctx):
+    """Q11 literal readers carry no state from one capture of the line to the next (shared rule, scv/common.py)"""
+    from ..common import reader_stateless
+    reader_stateless(ctx, 'Q11', ('Percent',))
+
+
+RULES.append(('Q11', q11_stateless))
